@@ -917,3 +917,17 @@ func init() {
 		},
 	})
 }
+
+func init() {
+	register(&PropDef{ID: "C17", Rule: "1-3 processes (some replicated, restarted or started again on request) whose command line and environment values contain $NAME, ${NAME}, $$NAME and $${NAME} over a pool of five variables defined - in seeded overlapping subsets - in the inherited environment of process-compose, a .env file, env_cmds (run on the simulated kernel: succeed, fail, hang), the global and the per-process environment, with and without disable_env_expansion; every exec on the simulated kernel is compared with the expected command line, environment (last duplicate wins) and working directory; non-trivial = at least one command launched; distinct = distinct scenario",
+		Gen: func(seed uint64, idx int, tier string) *Scenario {
+			sc, r := baseScenario("C17", seed)
+			genC17(r, sc, tier)
+			return sc
+		},
+		Check: checkC17,
+		NonTrivial: func(sc *Scenario, res *RunResult, t *Truth) bool {
+			return len(t.Insts) > 0
+		},
+	})
+}
